@@ -1,4 +1,5 @@
 import DcmVerif.Proofs.Grid
+import DcmVerif.Props.C11_complete
 /-! Property theorems for C11. Statements only; proofs are by reference to `Proofs/`. -/
 set_option autoImplicit false
 
